@@ -1,5 +1,6 @@
 (* C05 driver.
      compose <rtype> <field>...        -> Reject | <wire> <rdlen> <rdlen_compress> <canonical>
+     viamsg <target> <rtype> <field>... -> rdlenc=<n|None> back=<decompressed rdata> rdlength=ok wire=<plain|any>
      parse <rtype> <msg> <pos> <lim>   -> Ok <field>... | Err short | Err form | Panic
      equnk <t1> <octets> <t2> <octets> -> all=<bool> zone=<bool>   (== inside AllRecordData / ZoneRecordData)
      optdata <code> <option data>      -> Ok <field>... | Err short | Err form   (one option through Opt::iter::<AllOptData>)
@@ -77,6 +78,24 @@ let handle = function
             | Some (Some c) ->
                 hex_of_bytes c.c_wire ^ " " ^ show_rdlen c.c_rdlen ^ " " ^ show_rdlen c.c_rdlen_c
                 ^ " " ^ hex_of_bytes c.c_canon))
+  | "viamsg" :: _target :: t :: toks ->
+      (* a record pushed twice into a message on one of the targets (0 Vec, 1 Static, 2 Tree,
+         3 Hash): the model's answer does not depend on the target *)
+      let t = n_of_int (int_of_string t) in
+      let hint = (match toks with _ :: g :: _ when int_of_n t = 45 -> n_of_int (int_of_string g) | _ -> n_of_int 0) in
+      (match c05_fields t hint with
+       | None -> "NoSchema"
+       | Some fields ->
+           let v = List.map2 fval_of_tok fields toks in
+           (* name compression is case-insensitive: a compressed name reads back in the spelling of
+              the earlier occurrence, so the read-back RDATA is compared with all names lower-cased *)
+           let lower_b b = let k = int_of_n b in if k >= 65 && k <= 90 then n_of_int (k + 32) else b in
+           let fold x = (match x with VName nm -> VName (List.map (List.map lower_b) nm) | y -> y) in
+           (match c05_compose t v, c05_compose t (List.map fold v) with
+            | Some (Some c), Some (Some cf) ->
+                let plain = (match c.c_rdlen_c with Ok (Some _) -> "plain" | _ -> "any") in
+                "rdlenc=" ^ show_rdlen c.c_rdlen_c ^ " back=" ^ hex_of_bytes cf.c_wire ^ " rdlength=ok wire=" ^ plain
+            | _ -> "Reject"))
   | ["parse"; t; msg; pos; lim] ->
       let t = n_of_int (int_of_string t) in
       (match c05_parse t (bytes_of_hex msg) (n_of_int (int_of_string pos)) (n_of_int (int_of_string lim)) with
@@ -106,9 +125,14 @@ let handle = function
        | Panic _ -> "Panic"
        | OutOfFuel -> "OutOfFuel")
   | ["svcbuild"; l] ->
-      (match c05_svcbuild (opts_of_tok l) with
-       | None -> "Reject"
-       | Some b -> hex_of_bytes b)
+      (* the in-buffer model of SvcParamsBuilder answers; the sorted-list model must agree *)
+      let pushes = opts_of_tok l in
+      let a = (match c05_svcbuild_inbuf pushes with
+               | None -> "Reject"
+               | Some (Ok b) -> hex_of_bytes b
+               | Some _ -> "Panic") in
+      let b = (match c05_svcbuild pushes with None -> "Reject" | Some b -> hex_of_bytes b) in
+      if a = b then a else a ^ " MODELS-DIFFER " ^ b
   | ["optframe"; l] ->
       (match c05_optframe (opts_of_tok l) with
        | None -> "Reject"
